@@ -294,6 +294,16 @@ class C03Case:
                         if ok and f.endswith('.o') and \
                            g.steps[ok]['reads'] & own:
                             self.must_edges.setdefault(ok, set()).update(hdr)
+        for st in self.proj.stmts('copy_file'):
+            deps = set()
+            for dv in self.list_arg(st.text, 'extra_deps'):
+                deps |= self.files_of_ref(dv)
+            m = re.search(r"file='([^']+)'", st.text)
+            if deps and m:
+                out = 'build/' + m.group(1)
+                k = g.producer.get(out)
+                if k:
+                    self.must_edges.setdefault(k, set()).update(deps)
         # the submodule's static library names the nested submodule's
         # library in libs=: ar never reads it, the script declares it
         inner = {f for f in g.producer
@@ -382,11 +392,19 @@ class C03Case:
         allowed = self.always_closure(
             self.graph.closure_of_files(goal_files, self.declared))
         if ran - allowed or r.inv:
+            feats = set()
+            extra = ran - allowed
+            if extra and not r.inv and all(
+                    self.graph.steps[k]['tool'] == 'ln' and
+                    self.must_edges.get(k) for k in extra):
+                # symlink/hardlink copies that declare extra_deps: the link
+                # has its source's mtime, any newer extra dep keeps it dirty
+                feats.add('link-copy-with-extra-deps')
             self.vio('null-build',
                      'a build of {} right after a build re-ran {} and '
                      'launched bfg9000 {} times'.format(
                          list(goals) or 'all', sorted(ran - allowed)[:4],
-                         len(r.inv)))
+                         len(r.inv)), feats)
         else:
             self.count('null_builds')
         return r
@@ -462,6 +480,15 @@ class Runner:
         if proj.model['tests']:
             extra.append('tests')
         exes = [st.facts['name'] for st in proj.stmts('executable')]
+        # copies are nobody's dependency and not in the default set: they
+        # are only reachable by name
+        for st in proj.stmts('copy_file'):
+            m = re.search(r"file='([^']+)'", st.text)
+            if m:
+                exes.append(m.group(1))
+        for st in proj.stmts('copy_files'):
+            for f in re.findall(r"'(data/[^']+)'", st.text):
+                exes.append(f)
         return extra, exes
 
     def op(self, op):
@@ -508,6 +535,16 @@ class Runner:
                 self.built.add(key)
             else:
                 c.null_build(op[1], self.goal_files(op[1]))
+        elif k == 'null-everything':
+            files = set()
+            for x in self.everything:
+                files.add('build/' + x)
+            files |= self.default_files
+            key = tuple(self.everything)
+            if key not in self.built:
+                c.build(self.everything, label='build')
+                self.built.add(key)
+            c.null_build(self.everything, files)
         elif k == 'edit':
             f = op[1]
             p = os.path.join(w.root, f)
@@ -680,7 +717,7 @@ def run_case(seed, root, params=None):
             return bool(c.violations)
 
         for op in (['configure'], ['all'], ['complete'], ['membership'],
-                   ['null', []]):
+                   ['null', []], ['null-everything']):
             if do(op):
                 return
         sources = sorted({f for st in g.steps.values() for f in st['reads']
